@@ -16,6 +16,8 @@ I = z3.IntSort()
 pow2 = z3.Function('pow2', I, I)
 bl = z3.Function('bl', I, I)
 ipow = z3.Function('ipow', I, I, I)
+tz = z3.Function('tz', I, I)        # number of trailing zero bits of a positive integer (x & (x-1) == x - 2^tz(x))
+_TZS = {}         # formula id -> {arg id: arg} of tz applications
 
 _POW2 = pow2.get_id() if hasattr(pow2, 'get_id') else None
 
@@ -39,6 +41,7 @@ def _collect1(f):
     seen = set()
     p2, bls, dms, ipows = {}, {}, {}, {}
     muls = {}
+    tzs = {}
     stack = [f]
     while stack:
         t = stack.pop()
@@ -59,12 +62,15 @@ def _collect1(f):
                     bls[t.arg(0).get_id()] = t.arg(0)
                 elif d.eq(ipow):
                     ipows[i] = t
+                elif d.eq(tz):
+                    tzs[t.arg(0).get_id()] = t.arg(0)
             elif k in (z3.Z3_OP_IDIV, z3.Z3_OP_MOD):
                 dms[i] = t
             elif k == z3.Z3_OP_MUL and t.num_args() == 2 and (is_app_of(t.arg(0), pow2) or is_app_of(t.arg(1), pow2)):
                 muls[i] = t
             stack.extend(t.children())
     _MULS[fid] = muls
+    _TZS[fid] = tzs
     _COLLECT[fid] = (f, p2, bls, dms, ipows)
     return p2, bls, dms, ipows
 
@@ -191,6 +197,16 @@ def _ax_dd(t1, t2, last):
     return out
 
 
+def _ax_mm(t1, t2):
+    """x mod 2^a and x mod 2^b: 0 <= a <= b and 2^b | x  ->  2^a | x;  and  x mod 2^a == (x mod 2^b) mod 2^a  is implied"""
+    out = []
+    for (u, v) in ((t1, t2), (t2, t1)):
+        a, b = u.arg(1).arg(0), v.arg(1).arg(0)
+        out.append(('MM.div', z3.Implies(z3.And(a >= 0, a <= b, v == 0), u == 0)))
+        out.append(('MM.le', z3.Implies(z3.And(a >= 0, a <= b, u.arg(0) >= 0), u <= v)))
+    return out
+
+
 def _ax_mul(t):
     """x * pow2(k): introduce its bit length (S2) and sign facts"""
     out = []
@@ -212,6 +228,16 @@ def _ax_ipow(t):
             ('IP.nonneg', z3.Implies(z3.And(b_ >= 0, e_ >= 0), t >= 0)),
             ('IP.zerob', z3.Implies(z3.And(b_ == 0, e_ > 0), t == 0)),
             ('IP.two', z3.Implies(z3.And(b_ == 2, e_ >= 0), t == pow2(e_)))]
+
+
+def _ax_tz(x):
+    """trailing zeros of x > 0: x = (2q+1) * 2^tz(x); x is a power of two iff tz(x) == bl(x) - 1"""
+    T = tz(x)
+    return [('TZ.range', z3.Implies(x > 0, z3.And(T >= 0, T <= bl(x) - 1))),
+            ('TZ.div', z3.Implies(x > 0, z3.And(x % pow2(T) == 0, (x / pow2(T)) % 2 == 1))),
+            ('TZ.le', z3.Implies(x > 0, pow2(T) <= x)),
+            ('TZ.pow2', z3.Implies(x > 0, (x == pow2(T)) == (T == bl(x) - 1))),
+            ('TZ.pow2b', z3.Implies(x > 0, (x == pow2(bl(x) - 1)) == (T == bl(x) - 1)))]
 
 
 def _cached(key, fn):
@@ -324,6 +350,19 @@ def instantiate(formulas, rounds: int = 2, heavy: bool = True, quant=None):
                 emit(('dd', i, j, last), lambda t1=t1, t2=t2: _ax_dd(t1, t2, last))
         for i, t in sorted(ipows.items()):
             emit(('ip', i), lambda t=t: _ax_ipow(t))
+        # pairs of remainders (mod pow2) of the same numerator: divisibility by the larger power gives the smaller
+        mods = [(i, t) for i, t in sorted(dms.items())
+                if t.decl().kind() == z3.Z3_OP_MOD and is_app_of(t.arg(1), pow2)]
+        for x in range(len(mods)):
+            for y in range(x + 1, len(mods)):
+                (i, t1), (j, t2) = mods[x], mods[y]
+                if t1.arg(0).get_id() != t2.arg(0).get_id():
+                    continue
+                emit(('mm', i, j), lambda t1=t1, t2=t2: _ax_mm(t1, t2))
+        if not last:
+            for f_ in work + axioms:
+                for i, x in _TZS.get(f_.get_id(), {}).items():
+                    emit(('tz', i), lambda x=x: _ax_tz(x))
         if not last:
             for f_ in work + axioms:
                 for i, t in _MULS.get(f_.get_id(), {}).items():
@@ -368,6 +407,12 @@ def bounded_defs(formulas, B: int):
         cons.append(z3.Implies(c >= 0, z3.Or(
             [z3.And(c == 0, Bc == 0)] +
             [z3.And(c >= (1 << (k - 1)), c < (1 << k), Bc == k) for k in range(1, B + 1)])))
+    for f_ in formulas:
+        _collect1(f_)
+        for _, x in _TZS.get(f_.get_id(), {}).items():
+            cons.append(x < (1 << B))
+            cons.append(z3.Implies(x > 0, z3.Or(
+                [z3.And(x % (1 << (k + 1)) == (1 << k), tz(x) == k) for k in range(B + 1)])))
     return cons
 
 
@@ -403,6 +448,10 @@ def selftest_schemas(limit: int = 40) -> dict:
                     bad['S6q'] = (x, j, k)
         for a in range(0, 6):
             for b in range(a, 8):
+                if x % P(b) == 0 and x % P(a) != 0:
+                    bad['MM.div'] = (x, a, b)
+                if x % P(a) > x % P(b):
+                    bad['MM.le'] = (x, a, b)
                 if x // P(b) != (x // P(a)) // P(b - a):
                     bad['DD.nest'] = (x, a, b)
                 if (x // P(a)) % P(b - a) != (x % P(b)) // P(a):
@@ -411,4 +460,12 @@ def selftest_schemas(limit: int = 40) -> dict:
             bad['S7'] = (x,)
         if BL(x + 1) > BL(x) + 1:
             bad['S7b'] = (x,)
+        if x > 0:
+            T = (x & -x).bit_length() - 1
+            if x & (x - 1) != x - P(T):
+                bad['TZ.def'] = (x,)
+            if not (0 <= T <= BL(x) - 1) or x % P(T) != 0 or (x // P(T)) % 2 != 1 or P(T) > x:
+                bad['TZ.div'] = (x,)
+            if (x == P(T)) != (T == BL(x) - 1) or (x == P(BL(x) - 1)) != (T == BL(x) - 1):
+                bad['TZ.pow2'] = (x,)
     return {'cases': cnt, 'bad': bad}
